@@ -4,6 +4,7 @@
   the named bucket) and the simulation: `abs ∘ byte step = ledger step ∘ abs`, with `CanonS` kept.
 -/
 import MW.Lemmas.LedBytesStore
+import MW.Lemmas.LedBytesCredit
 namespace MW.LedBytes
 open MW MW.Gen.Codec MW.Model.TxmgrCodec MW.TxmgrCodec MW.Model.Ledger
 
@@ -152,12 +153,13 @@ theorem addr_step (E : Env) {a : AMap.T Bytes Bytes} (ha : Canon (cdA E.N) a) {w
     · simp only [hz, if_true]; exact ⟨hput, hcput⟩
     · simp only [hz, if_false]; exact ⟨trivial, ha⟩
 
-/-- **creditApply on bytes** (needs the laws of the credit codec `c`) -/
-theorem creditApply_on_bytes (E : Env) (LC : (cdC E.N).Laws) (p : Params) {sb : SB} (hC : CanonS E sb.1)
+/-- **creditApply on bytes** -/
+theorem creditApply_on_bytes (E : Env) (p : Params) {sb : SB} (hC : CanonS E sb.1)
     {txh : Bytes} {blk : BlockMetaB} (hs : StepWF txh blk) {r : RelB} (hr : r.WF E.N) (tr : TxRec)
     (hid : tr.tx.id = E.N.tx txh) :
     absSB E (creditApplyB p txh tr.tx.cb blk sb r) = creditApply p tr (nmBlk E.N blk) (absSB E sb) (r.nm E.N) ∧
     CanonS E (creditApplyB p txh tr.tx.cb blk sb r).1 := by
+  have LC := cdC_laws E.N
   obtain ⟨ha, hca⟩ := addr_step E hC.a (ad := r.addr) hr.wallet r.cls.isStaking hs.ht
   have hck := credKey_wf hs hr.index
   have huk := unspentKey_wf hr.wallet hs.txh hr.index
@@ -189,5 +191,86 @@ theorem creditApply_on_bytes (E : Env) (LC : (cdC E.N).Laws) (p : Params) {sb : 
   · exact { hC with a := hca
                     c := canon_put hC.c (cd := cdC E.N) (k := ⟨txh, blk, r.index⟩) (v := (minedCreditB p tr.tx.cb r, none)) hck hcv
                     u := canon_put hC.u (cd := cdU E.N) (k := ⟨r.wallet, txh, r.index⟩) (v := blk) huk hbm }
+
+/-- AddCredits (mined), body of the first loop: existsCredit, then the writes -/
+def creditOneB (p : Params) (txh : Bytes) (cb : Bool) (blk : BlockMetaB) (sb : SB) (r : RelB) : M SB :=
+  if (AMap.get sb.1.c (keyCredit ⟨txh, blk, r.index⟩)).isSome then throw .duplicate
+  else pure (creditApplyB p txh cb blk sb r)
+
+theorem creditOne_on_bytes (E : Env) (p : Params) {sb : SB} (hC : CanonS E sb.1)
+    {txh : Bytes} {blk : BlockMetaB} (hs : StepWF txh blk) {r : RelB} (hr : r.WF E.N) (tr : TxRec)
+    (hid : tr.tx.id = E.N.tx txh) :
+    (creditOneB p txh tr.tx.cb blk sb r).map (absSB E) = creditOne p tr (nmBlk E.N blk) (absSB E sb) (r.nm E.N) ∧
+    ∀ sb', creditOneB p txh tr.tx.cb blk sb r = .ok sb' → CanonS E sb'.1 := by
+  have hck := credKey_wf hs hr.index
+  have hh := abs_has (cdC_laws E.N) hC.c (k := ⟨txh, blk, r.index⟩) hck
+  have e1 : (cdC E.N).nmK ⟨txh, blk, r.index⟩ = ⟨tr.tx.id, nmBlk E.N blk, (r.nm E.N).index⟩ := by rw [hid]; rfl
+  rw [e1] at hh
+  obtain ⟨h1, h2⟩ := creditApply_on_bytes E p hC hs hr tr hid
+  unfold creditOneB creditOne
+  have hh' : (AMap.get (absSB E sb).1.credits ⟨tr.tx.id, nmBlk E.N blk, (r.nm E.N).index⟩).isSome
+      = (AMap.get sb.1.c (keyCredit ⟨txh, blk, r.index⟩)).isSome := hh
+  rw [hh']
+  by_cases hd : (AMap.get sb.1.c (keyCredit ⟨txh, blk, r.index⟩)).isSome = true
+  · simp only [hd, if_true]
+    exact ⟨rfl, fun sb' h => by cases h⟩
+  · simp only [hd, Bool.false_eq_true, if_false]
+    refine ⟨?_, fun sb' h => ?_⟩
+    · show Except.ok (absSB E _) = Except.ok _
+      rw [h1]
+    · cases h; exact h2
+
+/-- simulation of an error-exiting loop from the simulation of its body -/
+theorem foldlM_sim {α αB β βB : Type} (absF : βB → β) (P : βB → Prop) (fB : βB → αB → M βB) (f : β → α → M β)
+    (g : αB → α) (Q : αB → Prop)
+    (hstep : ∀ b a, P b → Q a → (fB b a).map absF = f (absF b) (g a) ∧ ∀ b', fB b a = .ok b' → P b') :
+    ∀ (l : List αB) (b : βB), P b → (∀ a ∈ l, Q a) →
+      (l.foldlM fB b).map absF = (l.map g).foldlM f (absF b) ∧ ∀ b', l.foldlM fB b = .ok b' → P b' := by
+  intro l
+  induction l with
+  | nil => intro b hb _; exact ⟨rfl, fun b' h => by cases h; exact hb⟩
+  | cons a l ih =>
+    intro b hb hq
+    obtain ⟨h1, h2⟩ := hstep b a hb (hq a List.mem_cons_self)
+    simp only [List.foldlM_cons, List.map_cons]
+    cases hf : fB b a with
+    | error e =>
+      rw [hf] at h1
+      rw [← h1]
+      exact ⟨rfl, fun b' h => by cases h⟩
+    | ok b1 =>
+      rw [hf] at h1
+      rw [← h1]
+      exact ih b1 (h2 b1 hf) (fun x hx => hq x (List.mem_cons_of_mem _ hx))
+
+/-- AddCredits (mined), second loop body: deleteUnminedGameHistory on `LG`, putGameHistory on `lg` -/
+def gameOneB (txh : Bytes) (blk : BlockMetaB) (bs : BStore) (r : RelB) : BStore :=
+  { bs with
+    LG := AMap.erase bs.LG (keyUnminedGameHistory ⟨r.wallet, r.cls.isBinding, false, txh, 0, r.index⟩),
+    lg := AMap.put bs.lg (keyGameHistory ⟨r.wallet, r.cls.isBinding, false, txh, blk.height, r.index⟩)
+            Model.TxmgrCodec.valueGameHistory }
+
+theorem gameOne_on_bytes (E : Env) {bs : BStore} (hC : CanonS E bs) {txh : Bytes} {blk : BlockMetaB}
+    (hs : StepWF txh blk) {r : RelB} (hr : r.WF E.N) (tr : TxRec) (hid : tr.tx.id = E.N.tx txh) :
+    absStore E (gameOneB txh blk bs r) = gameOne tr (nmBlk E.N blk) (absStore E bs) (r.nm E.N) ∧
+    CanonS E (gameOneB txh blk bs r) := by
+  have hgk := gameKey_wf hr.wallet hs.txh r.cls.isBinding false hs.ht hr.index
+  have huk : (cdUG E.N).wfK ⟨r.wallet, r.cls.isBinding, false, txh, 0, r.index⟩ :=
+    ⟨ugameKey_wf hr.wallet hs.txh r.cls.isBinding hr.index, rfl, rfl⟩
+  have h1 := abs_erase (cdUG_laws E.N) hC.LG huk
+  have h2 := abs_put (cdG_laws E.N) hC.lg (k := ⟨r.wallet, r.cls.isBinding, false, txh, blk.height, r.index⟩) (v := ()) hgk trivial
+  constructor
+  · simp only [gameOneB, gameOne, absStore]
+    have h1' : absBucket (cdUG E.N) (AMap.erase bs.LG (keyUnminedGameHistory ⟨r.wallet, r.cls.isBinding, false, txh, 0, r.index⟩))
+        = AMap.erase (absBucket (cdUG E.N) bs.LG) ((r.nm E.N).wallet, (r.nm E.N).out.cls.isBinding, tr.tx.id, (r.nm E.N).index) := by
+      rw [hid]; exact h1
+    have h2' : absBucket (cdG E.N) (AMap.put bs.lg (keyGameHistory ⟨r.wallet, r.cls.isBinding, false, txh, blk.height, r.index⟩)
+          Model.TxmgrCodec.valueGameHistory)
+        = AMap.put (absBucket (cdG E.N) bs.lg)
+            ⟨(r.nm E.N).wallet, (r.nm E.N).out.cls.isBinding, false, tr.tx.id, (nmBlk E.N blk).height, (r.nm E.N).index⟩ () := by
+      rw [hid]; exact h2
+    rw [h1', h2']
+  · exact { hC with LG := canon_erase hC.LG _
+                    lg := canon_put hC.lg (cd := cdG E.N) (k := ⟨r.wallet, r.cls.isBinding, false, txh, blk.height, r.index⟩) (v := ()) hgk trivial }
 
 end MW.LedBytes
